@@ -576,6 +576,12 @@ def main(argv):
                         cand = {"for": "bounded", "kind": "echo", "name": "precedence of `%s`" % bf.get("statement", ""), "files": {"prec.st": bf["input"]},
                                 "expect_contains": [bf["expected"]] if bf.get("expected") else []}
                         clause = "`%s` must be grouped as `%s`, the parser gives `%s`" % (bf.get("statement"), bf.get("expected"), bf.get("rendered", bf.get("problem")))
+                    elif r["name"] == "lsp_history":
+                        cand = bf["candidate"]
+                        clause = "diagnostics published after an edit history are not those of `check` on the current text: %s" % "; ".join(bf["problems"])[:300]
+                    elif r["name"] == "lsp_tokens_history":
+                        cand = {"for": "bounded", "kind": "lsp_tokens_vs_text", "name": "edit history of %d steps" % len(bf["steps"]), "steps": bf["steps"]}
+                        clause = "semantic tokens after an edit history are not the highlighted lexemes of the current text: %s" % "; ".join(bf["problems"])[:300]
                     elif r["name"] == "tokens_tile":
                         cand = {"for": "bounded", "kind": "tokens_tile", "name": "%s, %s" % (bf["program"], bf["transformation"]), "files": {"f.st": bf["input"]}}
                         clause = "the tokens of %s (%s) do not tile the text / are reported at another line or column: %s" % (bf["program"], bf["transformation"], "; ".join(bf["problems"])[:200])
@@ -583,10 +589,10 @@ def main(argv):
                         cand = {"for": "bounded", "kind": "bounded_pair", "name": "%s, %s" % (bf["program"], bf["transformation"]),
                                 "original_text": bf["original_text"], "transformed_text": bf["input"], "fold_case": bf["fold_case"]}
                         clause = "%s under the transformation `%s` no longer parses to the same library / gets another verdict" % (bf["program"], bf["transformation"])
-                    f = {"obligation": "bounded/%s/%s" % (r["name"], hashlib.sha256(clause.encode()).hexdigest()[:8]), "kind": "bounded-stand-in", "item": None, "src": "parser/src/token.rs (logos) + parser/src/lexer.rs" if r["name"] == "tokens_tile" else "parser/src/parser.rs (peg grammar)",
-                         "clause": clause, "unit": "bounded", "message": "bounded stand-in for the generated %s failed on the real binary" % ("lexer" if r["name"] == "tokens_tile" else "parser"),
-                         "witness": {"candidate": cand, "observation": {k: v for k, v in bf.items() if k not in ("input", "original_text")}, "how": "ironplcc built from /repo working tree"}, "replay": rp}
-                    json.dump({"property": pid, "obligation": f["obligation"], "kind": f["kind"], "function": "TokenType::lexer (generated by derive(Logos)) + tokenize" if r["name"] == "tokens_tile" else "plc_parser (generated by peg::parser!)", "source": f["src"],
+                    f = {"obligation": "bounded/%s/%s" % (r["name"], hashlib.sha256(clause.encode()).hexdigest()[:8]), "kind": "bounded-stand-in", "item": None, "src": {"tokens_tile": "parser/src/token.rs (logos) + parser/src/lexer.rs", "lsp_tokens_history": "plc2x/src/lsp.rs + lsp_project.rs (server loop, lsp_server crate)", "lsp_history": "plc2x/src/lsp.rs + lsp_project.rs + project.rs (server loop, lsp_server crate)"}.get(r["name"], "parser/src/parser.rs (peg grammar)"),
+                         "clause": clause, "unit": "bounded", "message": "bounded stand-in (%s) failed on the real binary" % r["name"],
+                         "witness": {"candidate": cand, "observation": {k: v for k, v in bf.items() if k not in ("input", "original_text", "steps", "candidate")}, "how": "ironplcc built from /repo working tree"}, "replay": rp}
+                    json.dump({"property": pid, "obligation": f["obligation"], "kind": f["kind"], "function": {"tokens_tile": "TokenType::lexer (generated by derive(Logos)) + tokenize", "lsp_tokens_history": "ironplcc lsp (whole server) over an edit history", "lsp_history": "ironplcc lsp (whole server) over an edit history"}.get(r["name"], "plc_parser (generated by peg::parser!)"), "source": f["src"],
                                "clause": clause, "verifier": "bounded check of the real binary (tools/bounded.py)", "verifier_message": f["message"], "verifier_output": "",
                                "witness": f["witness"], "note": "replay with ./check %s --replay %s" % (pid, rp)}, open(rp, "w"), indent=1)
                     real_violations.append(f)
